@@ -275,7 +275,7 @@ MUTANTS["C17"] = [
     M("leftover-hashes", "merkleblock.py", "        if len(hashes) != 0:\n            raise RuntimeError(f\"hashes not all consumed {len(hashes)}\")\n", "", ["C17.3"], "extra hashes accepted"),
     M("is-valid-true", "merkleblock.py", "        return self.merkle_tree.root()[::-1] == self.header.merkle_root", "        return self.merkle_tree.root() is not None", ["C17.4"], "proof verdict not tied to the header root"),
     M("header-order", "block.py", "        result += self.prev_block[::-1]\n        # merkle_root - 32 bytes, little endian\n        result += self.merkle_root[::-1]", "        result += self.merkle_root[::-1]\n        # merkle_root - 32 bytes, little endian\n        result += self.prev_block[::-1]", ["C17.5"], "prev block and merkle root exchanged"),
-    M("pow-lt", "block.py", "        return proof <= self.target()", "        return proof < self.target()", ["C17.6"], "hash == target rejected"),
+    M("pow-lt", "block.py", "        return proof <= target\n", "        return proof < target\n", ["C17.6"], "hash == target rejected"),
     M("pow-be", "block.py", "        proof = little_endian_to_int(h256)", "        proof = big_endian_to_int(h256)", ["C17.6"], "hash read big-endian"),
     M("bits-float", "helper.py", "    if exponent <= 3:\n        # small exponents shift the coefficient down instead of producing a float\n        return coefficient >> (8 * (3 - exponent))\n", "", ["C17.7"], "small exponents yield floats"),
     M("clamp", "helper.py", "    if time_differential > TWO_WEEKS * 4:\n        time_differential = TWO_WEEKS * 4", "    if time_differential > TWO_WEEKS * 8:\n        time_differential = TWO_WEEKS * 4", ["C17.8"], "upper clamp at 16 weeks"),
